@@ -178,4 +178,38 @@ theorem inv_reachable (cmp : α → α → Ordering) [Std.TransCmp cmp] {srt : L
   | nil => exact h0
   | cons op ops ih => exact ih _ (inv_step cmp hs s0 h0 op)
 
+/-! ## iteration with an arbitrary consumer, `pathTo` -/
+
+/-- the cursor's `Inorder` hands ANY consumer exactly the keys of the subtree in order, and stops
+when (and only when) the consumer says so (C01's `inorderF_eq` at the cursor's node) -/
+theorem inorderF_visit {σ : Type} (f : Yield σ α) (p : Pos α) (s : σ) :
+    MdsVerif.Model.Cursor.inorderF f (some p) s = MdsVerif.Proofs.Stree.visit f p.cur.toList s :=
+  MdsVerif.Proofs.Stree.inorderF_eq f p.cur s
+
+/-- …so a consumer that stops once it holds `j` keys sees the first `max j 1` of them -/
+theorem inorder_stopped (p : Pos α) (stop : Option Nat) :
+    inorder (some p) stop = SortedSet.stopped stop p.cur.toList := by
+  simp only [inorder, inorderF_visit]
+  exact MdsVerif.Proofs.Stree.collect_stopped stop p.cur.toList
+
+/-- the Go slice that `node.pathTo(key)` returns (C01's model function) is the list of non-nil
+subtrees along the directions `pathDirs` that `Tree.Cursor` is modelled with -/
+theorem pathTo_eq (cmp : α → α → Ordering) (k : α) (t : Tree α) :
+    pathTo cmp k t = ((List.range ((pathDirs cmp k t).length + 1)).map
+      fun i => sub t ((pathDirs cmp k t).take i)).filter (fun u => !isNil u) := by
+  induction t with
+  | nil => simp [pathTo, pathDirs, isNil]
+  | node l x r ihl ihr =>
+    simp only [pathTo, pathDirs]
+    cases hc : cmp k x with
+    | lt =>
+      simp only [List.length_cons, List.range_succ_eq_map (n := (pathDirs cmp k l).length + 1), List.map_cons,
+        List.map_map, List.take_zero, sub_nil_dirs, List.filter_cons, isNil, Bool.not_false, if_true]
+      rw [ihl]; congr 1
+    | gt =>
+      simp only [List.length_cons, List.range_succ_eq_map (n := (pathDirs cmp k r).length + 1), List.map_cons,
+        List.map_map, List.take_zero, sub_nil_dirs, List.filter_cons, isNil, Bool.not_false, if_true]
+      rw [ihr]; congr 1
+    | eq => simp [isNil]
+
 end MdsVerif.Proofs.Cursor
